@@ -1,5 +1,7 @@
 package dag
 
+import "fmt"
+
 // definition is a temporary struct to hold the DAG definition.
 // This struct is used to unmarshal the YAML data.
 // The data is then converted to the DAG struct.
@@ -26,6 +28,47 @@ type definition struct {
 	Params            string
 	MaxCleanUpTimeSec *int
 	Tags              any
+}
+
+// assertNoNullElements rejects a definition in which a list of steps,
+// functions or preconditions holds a null element (e.g. a dangling "- " in
+// the YAML file): those elements are decoded as nil pointers.
+func (d *definition) assertNoNullElements() error {
+	conds := func(where string, cs []*conditionDef) error {
+		for i, c := range cs {
+			if c == nil {
+				return fmt.Errorf("%s.preconditions[%d] must not be null", where, i)
+			}
+		}
+		return nil
+	}
+	if err := conds("dag", d.Preconditions); err != nil {
+		return err
+	}
+	for i, f := range d.Functions {
+		if f == nil {
+			return fmt.Errorf("functions[%d] must not be null", i)
+		}
+	}
+	for i, s := range d.Steps {
+		if s == nil {
+			return fmt.Errorf("steps[%d] must not be null", i)
+		}
+		if err := conds(fmt.Sprintf("steps[%d]", i), s.Preconditions); err != nil {
+			return err
+		}
+	}
+	for name, h := range map[string]*stepDef{
+		"exit": d.HandlerOn.Exit, "success": d.HandlerOn.Success,
+		"failure": d.HandlerOn.Failure, "cancel": d.HandlerOn.Cancel,
+	} {
+		if h != nil {
+			if err := conds("handlerOn."+name, h.Preconditions); err != nil {
+				return err
+			}
+		}
+	}
+	return nil
 }
 
 type conditionDef struct {
